@@ -426,8 +426,20 @@ func main() {
 		go func(i int) {
 			defer wg.Done()
 			defer func() { <-sem }()
-			c, d, cl, nt := runCase(*seed, i)
-			results[i-lo] = res{c, d, cl, nt}
+			// a call that never returns (a lock taken around the callbacks and a Stream that calls back, say) must not hang the run:
+			// the case is reported with a Panic observation, which no model run produces
+			done := make(chan res, 1)
+			go func() {
+				c, d, cl, nt := runCase(*seed, i)
+				done <- res{c, d, cl, nt}
+			}()
+			select {
+			case r := <-done:
+				results[i-lo] = r
+			case <-time.After(10 * time.Second):
+				results[i-lo] = res{"RCase 1 (3600000000000) [HPush None 0 0] [[Panic]]",
+					map[string]interface{}{"case": i, "hung": "a call did not return within 10 s (re-run with -only to see the history)"}, "hung", true}
+			}
 		}(i)
 	}
 	wg.Wait()
